@@ -60,8 +60,9 @@ class TupleV:
 
 class Opaque:
     """A value the interpreter does not model (kept as a named unknown)."""
-    def __init__(self, text):
+    def __init__(self, text, struct=None):
         self.text = text
+        self.struct = struct    # ('where', cond) for np.where(cond); ('matches', cond) for np.where(cond)[0]
 
     def __repr__(self):
         return 'Opaque(%s)' % self.text
@@ -564,6 +565,12 @@ class Interp:
                 i = self.ev(e.slice)
                 return Rat.atom(App('getitem', [base, self.as_scalar(i, e)]))
             if isinstance(base, Opaque):
+                if base.struct:
+                    i = self.ev(e.slice)
+                    if base.struct[0] == 'where' and isinstance(i, Rat) and i.is_const() and i.const_value() == 0:
+                        return Opaque(norm(e), ('matches', base.struct[1]))
+                    if base.struct[0] == 'matches' and isinstance(i, Rat):
+                        return Rat.atom(App('match', [base.struct[1], i]))
                 return Opaque(norm(e))
             self.incomplete(e, 'subscript base %r' % (base,))
         idx = self.index_list(e.slice)
@@ -689,6 +696,8 @@ class Interp:
                     return shape_sym(a.name, 0)
                 if isinstance(a, TupleV):
                     return Rat.const(len(a.items))
+                if isinstance(a, Opaque) and a.struct and a.struct[0] == 'matches':
+                    return Rat.atom(App('count', [a.struct[1]]))
                 return Rat.atom(App('len', [self.as_scalar(a, e)]))
             return ('iter', short, args)
         if dn in ('builtins.max', 'builtins.min', 'numpy.maximum', 'numpy.minimum') and len(args_nodes) == 2:
@@ -713,6 +722,9 @@ class Interp:
             if len(args) == 3:
                 c = self.cond_of(args[0], e)
                 return Rat.atom(App('ite', [cond_arg(c), self.as_scalar(args[1], e), self.as_scalar(args[2], e)]))
+            if len(args) == 1 and _is_cond(args[0]):
+                # index arrays of the elements satisfying an elementwise condition (whole arrays stand for their elements)
+                return Opaque(norm(e), ('where', cond_arg(args[0])))
             return Opaque(norm(e))
         if dn in ('numpy.array', 'numpy.asarray'):
             v = self.ev(args_nodes[0])
@@ -862,10 +874,14 @@ class Interp:
         return True
 
     def st_Continue(self, s):
+        if getattr(self, 'cont_stack', None):
+            self.cont_stack[-1].append((list(self.guards), dict(self.env)))
         return True
 
     def st_Break(self, s):
         self.k.breaks = getattr(self.k, 'breaks', []) + [(list(self.guards), s)]
+        if getattr(self, 'break_stack', None):
+            self.break_stack[-1].append((list(self.guards), dict(self.env), s))
         return True
 
     def st_Assign(self, s):
@@ -1095,8 +1111,40 @@ class Interp:
                 elif _is_cond(pre[n]):
                     self.env[n] = ('truth', Rat.sym('%s~loop%d' % (n, self.fresh)))
         self.loops.append(loop)
+        if not hasattr(self, 'cont_stack'):
+            self.cont_stack = []
+            self.break_stack = []
+        self.cont_stack.append([])
+        self.break_stack.append([])
+        gdepth = len(self.guards)
         self.block(s.body)
+        conts = self.cont_stack.pop()
+        loop.gdepth = gdepth
+        loop.pre = pre
+        loop.phi = dict(carried)
+        # (extra guards, environment, node) of every path that leaves the loop through `break`
+        loop.breaks = [(g[gdepth:], envb, nb) for g, envb, nb in self.break_stack.pop()]
         self.loops.pop()
+        # end-of-iteration value of every loop-carried scalar as a function of its loop-phi symbol: the fall-through
+        # value, overridden on the paths that reach a `continue`
+        upd = {}
+        for n, symv in carried.items():
+            if n in accs or not isinstance(symv, Rat):
+                continue
+            post = self.env.get(n)
+            okv = isinstance(post, Rat)
+            for g, envc in reversed(conts):
+                vc = envc.get(n)
+                extra = g[gdepth:]
+                if not isinstance(vc, Rat) or not extra:
+                    okv = False
+                    break
+                c = extra[0] if len(extra) == 1 else ('and',) + tuple(extra)
+                if okv and vc != post:
+                    post = Rat.atom(App('ite', [cond_arg(c), vc, post]))
+            if okv:
+                upd[n] = (symv, post)
+        loop.carried = upd
         if hasattr(self, 'cells'):
             for kk in [kk for kk, vv in self.cells.items() if vv[2] > len(self.loops)]:
                 self.cells[kk] = (None, ('stale',), -1)
@@ -1136,7 +1184,13 @@ class Interp:
         c = self.cond_of(self.ev(s.test), s)
         self.loops.append(loop)
         self.guards.append(c)
+        for stk in ('cont_stack', 'break_stack'):
+            if not hasattr(self, stk):
+                setattr(self, stk, [])
+            getattr(self, stk).append([])
         self.block(s.body)
+        self.cont_stack.pop()
+        self.break_stack.pop()
         self.guards.pop()
         self.loops.pop()
         for n in assigned:
@@ -1186,6 +1240,8 @@ def merge_returns(returns, interp):
             vals.append((interp.as_scalar(v), g))
         elif isinstance(v, TupleV):
             vals.append((v, g))
+        elif isinstance(v, Opaque) and v.struct and len(returns) == 1:
+            return v
         else:
             return None
     if len(vals) == 1:
